@@ -1,0 +1,409 @@
+//go:build verif
+// +build verif
+
+package main
+
+// Verification hook (C16): runs the real mirrorIPFIX / mirrorSFlow on supplied datagrams and
+// prints the packet as it arrives at the mirror target.
+//
+// Case lines are read from $VERIF_IN:
+//
+//	mirror <ipfix|sflow> <src-hex (4 or 16 octets)> <dst dotted quad> <port> <max> <payload-hex|->
+//
+// For every line one line "<impl>\t<verdict>" is written to $VERIF_OUT:
+//
+//	impl    = <hex of the captured IPv4 packet, identification and header checksum zeroed>
+//	          <space> <hex of the 28 header octets built with the mirror package helpers>
+//	          or "panic"
+//	verdict = ok | ok noraw-fallback | fail:<reason>   (independent IPv4/UDP parser, see oracle)
+//
+// The packet is captured on a raw IPPROTO_UDP socket (full IP header) and, when the port can
+// be bound, also read from a UDP listener standing in for the third-party collector.
+// A raw socket with IP_HDRINCL has the kernel fill in the identification (when zero), the total
+// length and the header checksum; the captured total length is therefore the real datagram
+// length, and the value written by the code is observed through the helper header.
+
+import (
+	"bufio"
+	"bytes"
+	"encoding/binary"
+	"encoding/hex"
+	"fmt"
+	"net"
+	"os"
+	"strconv"
+	"strings"
+	"syscall"
+	"testing"
+	"time"
+
+	"github.com/EdgeCast/vflow/mirror"
+)
+
+type verifMirrorCase struct {
+	proto   string
+	src     net.IP
+	dst     net.IP
+	port    int
+	max     int
+	payload []byte
+}
+
+func verifParseMirror(line string) (c verifMirrorCase, err error) {
+	f := strings.Split(line, " ")
+	if len(f) != 7 || f[0] != "mirror" {
+		return c, fmt.Errorf("bad case line")
+	}
+	c.proto = f[1]
+	if c.proto != "ipfix" && c.proto != "sflow" {
+		return c, fmt.Errorf("bad proto")
+	}
+	b, err := hex.DecodeString(f[2])
+	if err != nil {
+		return c, err
+	}
+	c.src = net.IP(b)
+	c.dst = net.ParseIP(f[3])
+	if c.dst == nil {
+		return c, fmt.Errorf("bad dst")
+	}
+	if c.port, err = strconv.Atoi(f[4]); err != nil {
+		return c, err
+	}
+	if c.max, err = strconv.Atoi(f[5]); err != nil {
+		return c, err
+	}
+	if f[6] != "-" {
+		if c.payload, err = hex.DecodeString(f[6]); err != nil {
+			return c, err
+		}
+	} else {
+		c.payload = []byte{}
+	}
+	return c, nil
+}
+
+func verifSrcPort(proto string) int {
+	if proto == "ipfix" {
+		return 55117
+	}
+	return 55118
+}
+
+// last four octets of a 4- or 16-octet address (computed without net.IP.To4)
+func verifLast4(ip []byte) []byte {
+	if len(ip) < 4 {
+		return nil
+	}
+	return ip[len(ip)-4:]
+}
+
+func verifFds() map[int]bool {
+	m := map[int]bool{}
+	ents, err := os.ReadDir("/proc/self/fd")
+	if err != nil {
+		return m
+	}
+	for _, e := range ents {
+		if n, err := strconv.Atoi(e.Name()); err == nil {
+			m[n] = true
+		}
+	}
+	return m
+}
+
+// closes raw sockets that appeared since the snapshot (mirror.Conn offers no usable Close without the value)
+func verifCloseNewRaw(before map[int]bool) {
+	for fd := range verifFds() {
+		if before[fd] {
+			continue
+		}
+		ty, err := syscall.GetsockoptInt(fd, syscall.SOL_SOCKET, syscall.SO_TYPE)
+		if err != nil || ty != syscall.SOCK_RAW {
+			continue
+		}
+		pr, err := syscall.GetsockoptInt(fd, syscall.SOL_SOCKET, syscall.SO_PROTOCOL)
+		if err == nil && pr == syscall.IPPROTO_RAW {
+			syscall.Close(fd)
+		}
+	}
+}
+
+// header octets built by calling the package helpers the way the workers do
+func verifHelperHeader(c verifMirrorCase) (h []byte, panicked string) {
+	defer func() {
+		if p := recover(); p != nil {
+			panicked = fmt.Sprint(p)
+		}
+	}()
+	ip := mirror.NewIPv4HeaderTpl(mirror.UDPProto)
+	ipHdr := ip.Marshal()
+	udp := mirror.UDP{SrcPort: verifSrcPort(c.proto), DstPort: c.port}
+	udpHdr := udp.Marshal()
+	ip.SetAddrs(ipHdr, c.src, c.dst)
+	ip.SetLen(ipHdr, len(c.payload)+mirror.UDPHLen)
+	udp.SetLen(udpHdr, len(c.payload))
+	return append(append([]byte{}, ipHdr...), udpHdr...), ""
+}
+
+// independent IPv4/UDP parser + the C16 conditions
+func verifMirrorOracle(c verifMirrorCase, pkt []byte) string {
+	if len(pkt) < 28 {
+		return "fail:short packet"
+	}
+	if pkt[0]>>4 != 4 {
+		return "fail:version"
+	}
+	ihl := int(pkt[0]&0x0f) * 4
+	if ihl != 20 {
+		return "fail:ihl"
+	}
+	tot := int(binary.BigEndian.Uint16(pkt[2:4]))
+	if tot != len(pkt) {
+		return fmt.Sprintf("fail:ip total length %d, datagram has %d", tot, len(pkt))
+	}
+	if tot != 28+len(c.payload) {
+		return fmt.Sprintf("fail:ip total length %d, want %d", tot, 28+len(c.payload))
+	}
+	if pkt[9] != 17 {
+		return "fail:protocol"
+	}
+	if !bytes.Equal(pkt[12:16], verifLast4(c.src)) {
+		return fmt.Sprintf("fail:ip source %v, want %v", net.IP(pkt[12:16]), net.IP(verifLast4(c.src)))
+	}
+	if !bytes.Equal(pkt[16:20], verifLast4(c.dst)) {
+		return fmt.Sprintf("fail:ip destination %v", net.IP(pkt[16:20]))
+	}
+	u := pkt[ihl:]
+	if int(binary.BigEndian.Uint16(u[0:2])) != verifSrcPort(c.proto) {
+		return "fail:udp source port"
+	}
+	if int(binary.BigEndian.Uint16(u[2:4])) != c.port {
+		return fmt.Sprintf("fail:udp destination port %d", binary.BigEndian.Uint16(u[2:4]))
+	}
+	ul := int(binary.BigEndian.Uint16(u[4:6]))
+	if ul != tot-ihl || ul != 8+len(c.payload) {
+		return fmt.Sprintf("fail:udp length %d, ip payload %d, want %d", ul, tot-ihl, 8+len(c.payload))
+	}
+	if !bytes.Equal(u[8:], c.payload) {
+		return "fail:payload differs"
+	}
+	return "ok"
+}
+
+type verifCapture struct {
+	fd int
+}
+
+func verifOpenCapture() (*verifCapture, error) {
+	fd, err := syscall.Socket(syscall.AF_INET, syscall.SOCK_RAW, syscall.IPPROTO_UDP)
+	if err != nil {
+		return nil, err
+	}
+	syscall.SetsockoptInt(fd, syscall.SOL_SOCKET, syscall.SO_RCVBUF, 4<<20)
+	tv := syscall.Timeval{Sec: 0, Usec: 20000}
+	syscall.SetsockoptTimeval(fd, syscall.SOL_SOCKET, syscall.SO_RCVTIMEO, &tv)
+	return &verifCapture{fd: fd}, nil
+}
+
+func (v *verifCapture) drain() {
+	buf := make([]byte, 1<<16)
+	for {
+		n, _, err := syscall.Recvfrom(v.fd, buf, syscall.MSG_DONTWAIT)
+		if err != nil || n <= 0 {
+			return
+		}
+	}
+}
+
+// next packet towards dst:port from the mirror's source port, or nil at the deadline / when stop fires
+func (v *verifCapture) next(c verifMirrorCase, deadline time.Time, stop <-chan string) ([]byte, string) {
+	buf := make([]byte, 1<<16)
+	for time.Now().Before(deadline) {
+		n, _, err := syscall.Recvfrom(v.fd, buf, 0)
+		if err == nil && n >= 28 && buf[9] == 17 && int(buf[0]&0x0f)*4 == 20 &&
+			bytes.Equal(buf[16:20], verifLast4(c.dst)) &&
+			int(binary.BigEndian.Uint16(buf[20:22])) == verifSrcPort(c.proto) &&
+			int(binary.BigEndian.Uint16(buf[22:24])) == c.port {
+			return append([]byte{}, buf[:n]...), ""
+		}
+		select {
+		case s := <-stop:
+			return nil, s
+		default:
+		}
+	}
+	return nil, ""
+}
+
+var verifNoRaw = false
+
+func verifRunMirror(cp *verifCapture, c verifMirrorCase) (string, string) {
+	helper, hp := verifHelperHeader(c)
+
+	if c.proto == "ipfix" {
+		opts.IPFIXUDPSize = c.max
+	} else {
+		opts.SFlowUDPSize = c.max
+	}
+
+	// the body as the worker hands it over: a pool buffer of max octets (longer only if the payload is)
+	capacity := c.max
+	if len(c.payload) > capacity {
+		capacity = len(c.payload)
+	}
+	body := make([]byte, capacity)
+	copy(body, c.payload)
+	body = body[:len(c.payload)]
+
+	var lst *net.UDPConn
+	if c.port != 0 && !verifNoRaw {
+		lst, _ = net.ListenUDP("udp4", &net.UDPAddr{IP: c.dst, Port: c.port})
+	}
+	if lst != nil {
+		defer lst.Close()
+	}
+
+	if verifNoRaw || cp == nil {
+		// raw sockets refused: header helpers + the assembly steps only
+		if hp != "" {
+			return "panic", "fail:panic " + hp
+		}
+		pkt := append(append([]byte{}, helper...), c.payload...)
+		v := verifMirrorOracle(c, pkt)
+		if v == "ok" {
+			v = "ok noraw-fallback"
+		}
+		return hex.EncodeToString(pkt) + " " + hex.EncodeToString(helper), v
+	}
+
+	cp.drain()
+	before := verifFds()
+	done := make(chan string, 2)
+	var send func()
+	if c.proto == "ipfix" {
+		ch := make(chan IPFIXUDPMsg, 1)
+		go func() {
+			defer func() {
+				if p := recover(); p != nil {
+					done <- "panic " + fmt.Sprint(p)
+				}
+			}()
+			err := mirrorIPFIX(c.dst, c.port, ch)
+			done <- "return " + fmt.Sprint(err)
+		}()
+		ch <- IPFIXUDPMsg{raddr: &net.UDPAddr{IP: c.src}, body: body}
+		send = func() { ch <- IPFIXUDPMsg{} } // nil raddr: ends the worker (recovered)
+	} else {
+		ch := make(chan SFUDPMsg, 1)
+		go func() {
+			defer func() {
+				if p := recover(); p != nil {
+					done <- "panic " + fmt.Sprint(p)
+				}
+			}()
+			err := mirrorSFlow(c.dst, c.port, ch)
+			done <- "return " + fmt.Sprint(err)
+		}()
+		ch <- SFUDPMsg{raddr: &net.UDPAddr{IP: c.src}, body: body}
+		send = func() { ch <- SFUDPMsg{} }
+	}
+
+	pkt, stopped := cp.next(c, time.Now().Add(2*time.Second), done)
+	if pkt == nil && stopped == "" {
+		select {
+		case stopped = <-done:
+		default:
+		}
+	}
+	if stopped == "" {
+		send()
+		select {
+		case <-done:
+		case <-time.After(2 * time.Second):
+		}
+	}
+	verifCloseNewRaw(before)
+
+	if pkt == nil {
+		if strings.HasPrefix(stopped, "panic") {
+			return "panic", "fail:" + strings.ReplaceAll(stopped, "\n", " ")
+		}
+		if strings.Contains(stopped, "not permitted") {
+			verifNoRaw = true
+			return verifRunMirror(cp, c)
+		}
+		return "none", "fail:no packet captured (" + stopped + ")"
+	}
+	if hp != "" {
+		return "panic", "fail:panic in header helpers: " + hp
+	}
+
+	verdict := verifMirrorOracle(c, pkt)
+	canon := append([]byte{}, pkt...)
+	canon[4], canon[5], canon[10], canon[11] = 0, 0, 0, 0
+
+	if verdict == "ok" {
+		// the value the code wrote into the total-length field (the kernel overwrites it on the wire)
+		if int(binary.BigEndian.Uint16(helper[2:4])) != 28+len(c.payload) {
+			verdict = fmt.Sprintf("fail:helper total length %d", binary.BigEndian.Uint16(helper[2:4]))
+		}
+	}
+	if verdict == "ok" && lst != nil {
+		// the stand-in collector
+		b := make([]byte, 1<<16)
+		lst.SetReadDeadline(time.Now().Add(500 * time.Millisecond))
+		n, ra, err := lst.ReadFromUDP(b)
+		if err != nil {
+			verdict = "fail:udp listener received nothing: " + err.Error()
+		} else if !bytes.Equal(b[:n], c.payload) {
+			verdict = "fail:udp listener payload differs"
+		} else if !bytes.Equal(verifLast4(ra.IP), verifLast4(c.src)) || ra.Port != verifSrcPort(c.proto) {
+			verdict = "fail:udp listener source " + ra.String()
+		}
+	}
+	return hex.EncodeToString(canon) + " " + hex.EncodeToString(helper), verdict
+}
+
+func TestVerifMirror(t *testing.T) {
+	in, out := os.Getenv("VERIF_IN"), os.Getenv("VERIF_OUT")
+	if in == "" || out == "" {
+		t.Skip("VERIF_IN/VERIF_OUT not set")
+	}
+	fi, err := os.Open(in)
+	if err != nil {
+		t.Fatal(err)
+	}
+	defer fi.Close()
+	fo, err := os.Create(out)
+	if err != nil {
+		t.Fatal(err)
+	}
+	defer fo.Close()
+
+	cp, err := verifOpenCapture()
+	if err != nil {
+		t.Log("raw capture socket refused, falling back to the header helpers:", err)
+		verifNoRaw = true
+	}
+
+	sc := bufio.NewScanner(fi)
+	sc.Buffer(make([]byte, 1<<20), 1<<26)
+	for sc.Scan() {
+		line := sc.Text()
+		if i := strings.IndexByte(line, '\t'); i >= 0 {
+			line = line[:i]
+		}
+		if line == "new" {
+			fmt.Fprintln(fo, "new\t")
+			continue
+		}
+		c, err := verifParseMirror(line)
+		if err != nil {
+			fmt.Fprintf(fo, "bad-op\tfail:%v\n", err)
+			continue
+		}
+		o, v := verifRunMirror(cp, c)
+		fmt.Fprintf(fo, "%s\t%s\n", o, v)
+	}
+}
